@@ -20,7 +20,7 @@ import (
 )
 
 func TestMain(m *testing.M) {
-	vstat.Rule("TokenBucketSet (sub-second periods allowed) and the HTTP TokenLimiter (periods >= 1s), 1-3 rates, frozen clock. Operation programs: advance(d), consume(n) with n around the bursts, flood(k,n) at one instant, retry-after-advertised-delay (advance exactly the returned delay / X-Retry-In, repeat the request), idle(burst*tau) then consume(min burst), consume(n > burst). Oracles: (i) metamorphic: deleting every rejected request that is not the first request at its instant leaves every remaining decision and delay identical (second instance replays the reduced time-line); (ii) a rejected n <= burst retried after the advertised delay is admitted; (iii) after idling max(burst*tau) a request of the smallest burst is admitted; (iv) n > burst is refused with an error (HTTP: error status, no X-Retry-In), never admitted; (v) a trickle of rejected requests at instants unrelated to tau cannot starve the source: n <= burst is admitted at the latest (2n+1)*tau after the last admission (the bound that holds even when every refill drops its remainder). Non-trivial: multi-rate set in which the refusing rate is not the longest-period one and >= 5 rejected requests between two admitted ones. TestC13_Quota: volume quotas (periods 1 h-30 d, averages and bursts up to 4e9, requests of up to millions of units, optional second short-period rate, bucket-set and HTTP level): a rejection has a positive delay, the retry after exactly that delay is admitted, nothing beyond burst + average x elapsed/period. TestC13_TwoClients: stock request.header extractor (five spellings), names with shared prefixes of 0-200 bytes, client A spends its burst, is refused, waits exactly the advertised delay while client B is busy, is admitted; then idles burst x period/average while B keeps going and regains its whole burst. TestC13_PlanChange: plans A and B of one period (1 s-1 min), averages 1-20, bursts up to 5 x the smaller average; traffic under A, idle max(burst) x max(tau) + 1 ms, then a request of burst(B) under B must pass and one more unit must not.")
+	vstat.Rule("TokenBucketSet (sub-second periods allowed) and the HTTP TokenLimiter (periods >= 1s), 1-3 rates, frozen clock. Operation programs: advance(d), consume(n) with n around the bursts, flood(k,n) at one instant, retry-after-advertised-delay (advance exactly the returned delay / X-Retry-In, repeat the request), idle(burst*tau) then consume(min burst), consume(n > burst). Oracles: (i) metamorphic: deleting every rejected request that is not the first request at its instant leaves every remaining decision and delay identical (second instance replays the reduced time-line); (ii) a rejected n <= burst retried after the advertised delay is admitted; (iii) after idling max(burst*tau) a request of the smallest burst is admitted; (iv) n > burst is refused with an error (HTTP: error status, no X-Retry-In), never admitted; (v) a trickle of rejected requests at instants unrelated to tau cannot starve the source: n <= burst is admitted at the latest (2n+1)*tau after the last admission (the bound that holds even when every refill drops its remainder). Non-trivial: multi-rate set in which the refusing rate is not the longest-period one and >= 5 rejected requests between two admitted ones. TestC13_Quota: volume quotas (periods 1 h-30 d, averages and bursts up to 4e9, requests of up to millions of units, optional second short-period rate, bucket-set and HTTP level): a rejection has a positive delay, the retry after exactly that delay is admitted, nothing beyond burst + average x elapsed/period. TestC13_TwoClients: stock request.header extractor (five spellings), names with shared prefixes of 0-200 bytes, client A spends its burst, is refused, waits exactly the advertised delay while client B is busy, is admitted; then idles burst x period/average while B keeps going and regains its whole burst. TestC13_PlanChange: plans A and B of one period (1 s-1 min), averages 1-20, bursts up to 5 x the smaller average; traffic under A, idle max(burst) x max(tau) + 1 ms, then a request of burst(B) under B must pass and one more unit must not. TestC13_ShortPeriods: periods {20,50,99,100,250,500 ms}, average 1-5, burst 1-10, optional second rate of twice the period, through ratelimit.New: burst admitted, next refused with X-Retry-In > 0, retry after exactly that admitted.")
 	vstat.Main(m.Run)
 }
 
@@ -620,5 +620,46 @@ func TestC13_PlanChange(t *testing.T) {
 			t.Fatalf("source moved to plan %v: after a request of the full burst one more unit was admitted at the same instant", planB)
 		}
 		vstat.Case(fmt.Sprintf("planchange|%v|%v|%d", planA, planB, spent), burstB != burstA || avgA != avgB, []string{"plan-changed-while-idle"}, map[string]any{"planA": fmt.Sprint(planA), "planB": fmt.Sprint(planB), "idle": idle.String()})
+	})
+}
+
+// TestC13_ShortPeriods: the HTTP limiter with rates whose periods are fractions of a second
+// (2 per 50 ms, 5 per 250 ms): a fresh source gets its burst, the next request is refused with
+// an advertised wait, and the retry after exactly that wait is admitted.
+func TestC13_ShortPeriods(t *testing.T) {
+	rapid.Check(t, func(t *rapid.T) {
+		period := rapid.SampledFrom([]time.Duration{20 * time.Millisecond, 50 * time.Millisecond, 99 * time.Millisecond, 100 * time.Millisecond, 250 * time.Millisecond, 500 * time.Millisecond}).Draw(t, "period")
+		avg := int64(rapid.IntRange(1, 5).Draw(t, "average"))
+		burst := int64(rapid.IntRange(1, 10).Draw(t, "burst"))
+		rates := []gen.Rate{{Period: period, Average: avg, Burst: burst}}
+		if rapid.IntRange(0, 2).Draw(t, "secondRate") == 0 {
+			rates = append(rates, gen.Rate{Period: 2 * period, Average: 3 * avg, Burst: 3 * burst})
+		}
+		rs, err := gen.RateSet(rates)
+		if err != nil {
+			t.Fatalf("rate set refused: %v", err)
+		}
+		clock.Freeze(epoch.Add(time.Duration(rapid.Int64Range(0, int64(time.Second)-1).Draw(t, "phase"))))
+		defer clock.Unfreeze()
+		served := new(int)
+		tl, err := ratelimit.New(http.HandlerFunc(func(w http.ResponseWriter, r *http.Request) { *served++ }), gen.HeaderExtractor, rs)
+		if err != nil {
+			t.Fatal(err)
+		}
+		l := httpLimiter{tl, served, t}
+		for i := int64(0); i < burst; i++ {
+			if d := l.do(1); !d.Admitted {
+				t.Fatalf("rates %v: request %d of a fresh source with burst %d answered %v", rates, i+1, burst, d)
+			}
+		}
+		d := l.do(1)
+		if d.Admitted || d.Err || d.Delay <= 0 {
+			t.Fatalf("rates %v: burst spent at one instant, the next request answered %v (want a refusal with an advertised wait)", rates, d)
+		}
+		clock.Advance(d.Delay)
+		if d2 := l.do(1); !d2.Admitted {
+			t.Fatalf("rates %v: told to wait %v; the retry after exactly that, with no other traffic, answered %v", rates, d.Delay, d2)
+		}
+		vstat.Case(fmt.Sprintf("short|%v", rates), true, []string{"sub-second-period-through-the-http-limiter"}, map[string]any{"rates": fmt.Sprint(rates), "advertised": d.Delay.String()})
 	})
 }
